@@ -99,7 +99,7 @@ func checkDeepEqualSlice(c *Ctx, rfl *packages.Package) {
 
 func init() {
 	addMutant(Mutant{Prop: "C15", Name: "chan-elem-raw-link", File: "ssa/abitype.go",
-		Old: "\tcase *types.Chan:\n\t\tfields = []llvm.Value{\n\t\t\tb.abiType(abi.PublicType(t.Elem())).impl,", New: "\tcase *types.Chan:\n\t\tfields = []llvm.Value{\n\t\t\tb.abiType(t.Elem()).impl,", Expect: "R15.5"})
+		Old: "\t\tdir, _ := abi.ChanDir(t.Dir())\n\t\tfields = []llvm.Value{\n\t\t\tb.abiType(abi.PublicType(t.Elem())).impl,", New: "\t\tdir, _ := abi.ChanDir(t.Dir())\n\t\tfields = []llvm.Value{\n\t\t\tb.abiType(t.Elem()).impl,", Expect: "R15.5"})
 	addMutant(Mutant{Prop: "C15", Name: "deepequal-pointer-before-len", File: "runtime/internal/lib/reflect/deepequal.go",
 		Old: "\t\tif v1.Len() != v2.Len() {\n\t\t\treturn false\n\t\t}\n\t\tif v1.UnsafePointer() == v2.UnsafePointer() {\n\t\t\treturn true\n\t\t}\n\t\t// Special case for []byte",
 		New: "\t\tif v1.UnsafePointer() == v2.UnsafePointer() {\n\t\t\treturn true\n\t\t}\n\t\tif v1.Len() != v2.Len() {\n\t\t\treturn false\n\t\t}\n\t\t// Special case for []byte", Expect: "R15.6"})
@@ -112,4 +112,30 @@ func init() {
 		Old: "\t\telem := b.realStr(t.Elem())\n\t\tif chanElemNeedsParens(t) {\n\t\t\telem = \"(\" + elem + \")\"\n\t\t}\n", New: "\t\telem := b.realStr(t.Elem())\n", Expect: "R15.4 abi.Builder.Str Chan of receive-only"})
 	addMutant(Mutant{Prop: "C15", Name: "struct-string-without-tags", File: "ssa/abi/type.go",
 		Old: "\t\tif tag := t.Tag(i); tag != \"\" {\n\t\t\trepr = append(repr, ' ')\n\t\t\trepr = append(repr, strconv.Quote(tag)...)\n\t\t}\n", New: "", Expect: "R15.4 abi.Builder.structStr renders field tags"})
+}
+
+// checkNamedNoExtraStar: the "print with a leading star" flag belongs to unnamed pointer types; a defined type
+// whose underlying type is a pointer (type P *T) prints as its own name.
+func checkNamedNoExtraStar(c *Ctx, ap *packages.Package) {
+	fd := findFunc(ap, "Builder.TFlag")
+	if fd == nil {
+		c.Undecided("R15.4", "abi.Builder.TFlag named types", 0, "function not found")
+		return
+	}
+	arms, _ := typeSwitchArms(fd)
+	cc := arms["Named"]
+	if cc == nil {
+		c.Undecided("R15.4", "abi.Builder.TFlag named types", fd.Pos(), "no arm for *types.Named")
+		return
+	}
+	src := strings.ReplaceAll(srcOf(cc), " ", "")
+	inherits := strings.Contains(src, "b.TFlag(t.Underlying())")
+	masks := strings.Contains(src, "&^abi.TFlagExtraStar") || strings.Contains(src, "&^(abi.TFlagExtraStar")
+	c.Check(!inherits || masks, "R15.4", "abi.Builder.TFlag named types do not inherit the star flag", cc.Pos(), "flags of the underlying type minus TFlagExtraStar",
+		"a defined type inherits TFlagExtraStar from a pointer underlying type: `type P *T` prints as *pkg.P, []P as []*pkg.P")
+}
+
+func init() {
+	addMutant(Mutant{Prop: "C15", Name: "named-pointer-extra-star", File: "ssa/abi/type.go",
+		Old: "return (b.TFlag(t.Underlying()) &^ abi.TFlagExtraStar) | abi.TFlagNamed", New: "return b.TFlag(t.Underlying()) | abi.TFlagNamed", Expect: "R15.4 abi.Builder.TFlag named types"})
 }
